@@ -164,7 +164,7 @@ func TestVerif_C12Collect(t *testing.T) {
 	run := verifkit.Start(t, "C12", "collect")
 	defer run.Finish()
 	defer e1TuneRuntime(run)()
-	run.Rule("seeded histories on the real collector with 2-4 workers and 2-3 environments whose samplers are dynsampler-backed (5 top-level kinds, rules with 1-2 downstream samplers): traffic steps (root spans of fresh traces hashed to chosen workers + one send tick), plain reloads (same or changed definition) and racing reloads in which one PRNG-chosen worker decides a queued trace while reloadConfigs is inside StressRelief.UpdateFromConfig (the others held by the pause handshake); non-trivial = after a racing reload whose interleaving completed, ≥ 2 workers held a sampler for the raced environment at a quiescent point; distinct = (workers, sampler kinds, raced kind, racing reloads)")
+	run.Rule("seeded histories on the real collector with 2-4 workers and 2-3 environments whose samplers are dynsampler-backed (5 top-level kinds, rules with 1-2 downstream samplers): traffic steps (root spans of fresh traces hashed to chosen workers + one send tick), plain reloads (same or changed definition) and racing reloads in which one PRNG-chosen worker decides a queued trace while reloadConfigs is inside StressRelief.UpdateFromConfig (the others held by the pause handshake); non-trivial = after a racing reload whose interleaving completed, ≥ 2 workers held a sampler for the raced environment at a quiescent point; distinct = (workers, sampler kinds, raced kind, racing reloads). Second block (classic-key): 1-2 classic API keys sending to 2-3 datasets with their own dynsampler definitions (with/without DatasetPrefix), PRNG arrival order mostly on one worker, optional reloads; per dataset: own sampler on every deciding worker, dynsamplers of different datasets distinct, request counters = traces decided; non-trivial = one key sent two different datasets to one worker")
 	run.Assume("identity of rate-tracking state = address of the dynsampler-go object behind a worker's sampler (field dynsampler, and RulesBasedSampler.samplers for downstream samplers), read while every worker is parked")
 	run.Assume("the interleaving point is the injected StressReliever's UpdateFromConfig; every wait inside it is bounded and an expired bound is reported as inconclusive")
 
@@ -458,4 +458,220 @@ func TestVerif_C12Collect(t *testing.T) {
 			run.Sample(map[string]any{"config": cfg.describe(), "kinds": kinds, "racing_reloads": raceDone, "ops": len(e.Ops())})
 		}
 	})
+
+	run.Cases("classic-key", run.N(20, 400), func(ci int, rng *verifkit.Rand) { c12ClassicKeyCase(run, t, rng, ci < 1) })
+}
+
+// ---- classic keys: one key, several datasets ---------------------------------------------------
+//
+// With a classic (legacy) API key the sampler key is the dataset (DatasetPrefix.dataset), and one
+// classic key writes to any number of datasets. Case: 1-3 workers, 1-2 classic keys (32-hex and
+// hc?ic_ shapes), 2-3 datasets each with its own dynsampler-backed definition, traces of PRNG-chosen
+// (key, dataset) decided one after the other mostly on one home worker, optional reloads. Oracle at
+// every check point (before a reload and at the end, workers parked), for the datasets decided since
+// the last reload: every worker that decided a trace of dataset d holds a sampler under d's sampler
+// key; the dynsamplers behind different datasets are different objects; and the request counters of
+// d's dynsamplers add up to exactly the number of traces of d decided since the reload (a trace fed
+// into another dataset's state shows up as a surplus there and a deficit here).
+
+func c12AddWithKey(e *E1, s E1Span, apiKey string) error {
+	if e.Failed() != "" {
+		return fmt.Errorf("E1 failed")
+	}
+	e.beginStep()
+	e.logOp("span-with-key", map[string]any{"span": s, "api_key": apiKey})
+	sp := e.build(s)
+	sp.APIKey = apiKey
+	err := e.coll.AddSpan(sp)
+	e.quiesce(0)
+	return err
+}
+
+type c12ClassicTrace struct {
+	Key     string `json:"api_key"`
+	Dataset string `json:"dataset"`
+	Worker  int    `json:"worker"`
+	Epoch   int    `json:"config_epoch"`
+}
+
+func c12ClassicKeyCase(run *verifkit.Run, t *testing.T, rng *verifkit.Rand, sample bool) {
+	workers := verifkit.Pick(rng, 1, 1, 2, 3)
+	tick := 10 * time.Millisecond
+	prefix := verifkit.Pick(rng, "", "", "pfx")
+	target := func(ds string) string {
+		if prefix != "" {
+			return prefix + "." + ds
+		}
+		return ds
+	}
+	datasets := []string{"ds-a", "ds-b", "ds-c"}[:rng.Range(2, 3)]
+	kinds := map[string]string{}
+	cfg := E1Config{Workers: workers, Samplers: map[string]*config.V2SamplerChoice{},
+		Traces: config.TracesConfig{SendTicker: config.Duration(tick), SendDelay: config.Duration(tick), TraceTimeout: config.Duration(time.Second), MaxExpiredTraces: 3000}}
+	for _, ds := range datasets {
+		kinds[ds], cfg.Samplers[target(ds)] = c12GenDef(rng)
+	}
+	e := e1Start(t, cfg)
+	defer e.Stop()
+	if prefix != "" {
+		e.Reload("dataset-prefix", func(c *config.MockConfig) { c.DatasetPrefix = prefix })
+	}
+	ws := e1adWorkers(e.coll)
+
+	keys := []string{rng.Hex(32)}
+	if rng.Bool() {
+		b := []byte("hcxic_")
+		for len(b) < 64 {
+			b = append(b, "0123456789abcdefghijklmnopqrstuvwxyz"[rng.Intn(36)])
+		}
+		if rng.Bool() {
+			keys = append(keys, string(b))
+		} else {
+			keys[0] = string(b)
+		}
+	}
+	home := rng.Intn(workers)
+	traceOn := func(w int) string {
+		for {
+			id := rng.Hex(32)
+			if e.WorkerOf(id) == w {
+				return id
+			}
+		}
+	}
+
+	epoch := 0
+	var traces []c12ClassicTrace
+	decided := map[string]int{}           // dataset -> traces decided since the last reload
+	decidedOn := map[int]map[string]int{} // worker -> dataset -> same
+	firstOnWorker := map[string]string{}  // worker|key -> first dataset seen (for the abstract signature)
+	multi := false
+
+	check := func(when string) {
+		e.Inspect(func(*E1View) {
+			type slotOf struct {
+				ds, slot string
+				s        c12Slot
+			}
+			objs := map[uintptr]slotOf{}
+			total := map[string]int64{}
+			for i, w := range ws {
+				held := c12adSamplers(w)
+				for _, ds := range datasets {
+					if decidedOn[i][ds] == 0 {
+						continue
+					}
+					smp, ok := held[target(ds)]
+					if !ok {
+						var have []string
+						for k := range held {
+							have = append(have, k)
+						}
+						sort.Strings(have)
+						run.Violation("C12/collect/classic-key/dataset-without-own-sampler",
+							fmt.Sprintf("worker %d decided %d trace(s) of dataset %q (classic key) since the last reload but holds no sampler for %q (%s); it holds %v", i, decidedOn[i][ds], ds, target(ds), when, have),
+							map[string]any{"kinds": kinds, "prefix": prefix, "traces_in_decision_order": traces, "worker": i, "dataset": ds})
+						continue
+					}
+					slots := map[string]c12Slot{}
+					c12Slots(reflect.ValueOf(smp), "", slots)
+					for name, sl := range slots {
+						if prev, seen := objs[sl.ptr]; seen {
+							if prev.ds != ds {
+								run.Violation("C12/collect/classic-key/datasets-share-dynsampler",
+									fmt.Sprintf("datasets %q and %q of one classic key are rated by the same dynsampler object (%s)", prev.ds, ds, when),
+									map[string]any{"kinds": kinds, "prefix": prefix, "traces_in_decision_order": traces})
+							}
+							continue
+						}
+						objs[sl.ptr] = slotOf{ds, name, sl}
+						if n, ok := c12RequestCount(sl.field); ok {
+							total[ds] += n
+						} else {
+							total[ds] = -1 << 40
+						}
+					}
+				}
+			}
+			for _, ds := range datasets {
+				if decided[ds] == 0 {
+					continue
+				}
+				run.Count("classic_dataset_state_checks", 1)
+				if total[ds] < 0 {
+					run.Count("classic_request_count_unavailable", 1)
+					continue
+				}
+				if total[ds] != int64(decided[ds]) {
+					run.Violation("C12/collect/classic-key/dataset-state-request-count-mismatch",
+						fmt.Sprintf("dataset %q (%s): %d trace(s) decided since the last reload, but its dynsampler state has counted %d request(s) (%s)", ds, kinds[ds], decided[ds], total[ds], when),
+						map[string]any{"kinds": kinds, "prefix": prefix, "traces_in_decision_order": traces, "decided": decided})
+				}
+			}
+		})
+	}
+
+	n := rng.Range(6, 14)
+	for i := 0; i < n && e.Failed() == ""; i++ {
+		if i > 0 && rng.Chance(0.12) {
+			check("before-reload")
+			ds := datasets[rng.Intn(len(datasets))]
+			change := rng.Bool()
+			e.Reload("plain", func(m *config.MockConfig) {
+				if change {
+					k, c := c12GenDef(rng)
+					ns := maps.Clone(m.Samplers)
+					ns[target(ds)] = c
+					m.Samplers = ns
+					kinds[ds] = k
+				}
+			})
+			epoch++
+			clear(decided)
+			clear(decidedOn)
+			clear(firstOnWorker)
+		}
+		key := keys[rng.Intn(len(keys))]
+		ds := datasets[rng.Intn(len(datasets))]
+		w := home
+		if rng.Chance(0.25) {
+			w = rng.Intn(workers)
+		}
+		s := e.NewSpan(traceOn(w), "root")
+		s.Env, s.Dataset = "", ds
+		s.Fields = map[string]any{"svc": verifkit.Pick(rng, "api", "db", "web")}
+		if err := c12AddWithKey(e, s, key); err != nil {
+			run.Inconclusive("collector refused a span: " + err.Error())
+			return
+		}
+		e.Advance(3 * tick) // decided before the next trace arrives: decision order = PRNG order
+		traces = append(traces, c12ClassicTrace{Key: key, Dataset: ds, Worker: w, Epoch: epoch})
+		decided[ds]++
+		if decidedOn[w] == nil {
+			decidedOn[w] = map[string]int{}
+		}
+		decidedOn[w][ds]++
+		fk := fmt.Sprintf("%d|%s", w, key)
+		if first, ok := firstOnWorker[fk]; !ok {
+			firstOnWorker[fk] = ds
+		} else if first != ds {
+			multi = true
+		}
+	}
+	if e.Failed() != "" {
+		run.Inconclusive(e.Failed())
+		return
+	}
+	check("at-end")
+	if multi {
+		ks := make([]string, 0, len(datasets))
+		for _, ds := range datasets {
+			ks = append(ks, kinds[ds])
+		}
+		run.Nontrivial(fmt.Sprintf("classic w%d keys%d prefix=%v %v reloads=%d", workers, len(keys), prefix != "", ks, min(epoch, 2)))
+	}
+	run.Count("classic_traces_decided", int64(len(traces)))
+	if sample {
+		run.Sample(map[string]any{"classic_key_case": true, "kinds": kinds, "prefix": prefix, "traces": traces})
+	}
 }
